@@ -436,6 +436,9 @@ func vCompareWithRef(s *reportSim, w *warrior, r *refSim) {
 		vAssert("core-equal", vSameInstr(s.mem[i], r.core[i]))
 	}
 	vAssert("queue-length-equal", w.pq.length == r.qn)
+	// the ring buffer stays well formed, so that the next step sees the same
+	// queue as the reference does
+	vAssert("queue-shape", vAnd(vAnd(w.pq.start < w.pq.size, w.pq.end < w.pq.size), w.pq.end == (w.pq.start+w.pq.length)%w.pq.size))
 	for i := Address(0); i < s.maxProcs; i++ {
 		vAssert("queue-equal", vImplies(i < r.qn, w.pq.queue[(w.pq.start+i)%w.pq.size] == r.qbuf[i]))
 	}
@@ -599,6 +602,7 @@ func vAssertInv(s *reportSim) {
 	for _, w := range s.warriors {
 		q := w.pq
 		vAssert("inv-queue-shape", vAnd(vAnd(q.length <= q.size, q.start < q.size), vAnd(q.end < q.size, q.end == (q.start+q.length)%q.size)))
+		vAssert("inv-process-limit", q.length <= s.maxProcs)
 		vAssert("inv-alive-iff-tasks", vImplies(w.state == WarriorAlive, q.length >= 1))
 		for i := Address(0); i < q.size; i++ {
 			vAssert("inv-queued-pc-below-M", vImplies(i < q.length, q.queue[(q.start+i)%q.size] < M))
